@@ -71,6 +71,18 @@ func child(spec string) {
 	}
 	sig := make(chan os.Signal, 4)
 	signal.Notify(sig, syscall.SIGTERM)
+	// scheduling-noise probe: how late do 5 ms sleeps wake up in this process
+	go func() {
+		worst := int64(0)
+		for {
+			t := mono()
+			time.Sleep(5 * time.Millisecond)
+			if late := (mono() - t - 5e6) / 1e6; late > worst+20 {
+				worst = late
+				fmt.Fprintf(rf, "J %d %d\n", mono(), late)
+			}
+		}
+	}()
 	eof := make(chan struct{})
 	base := make(chan int64, 1)
 	go func() {
@@ -123,18 +135,50 @@ var (
 	reportDir string
 )
 
-const (
-	slackMS    = 3000 // how much later than d + 2 s a return still counts
-	watchdogMS = 2000 + slackMS
-)
+// A Close that has not returned 30 s after it should at the latest is
+// recorded as "did not return" (a real hang never returns, so the limit only
+// has to be far beyond any scheduling delay).
+const watchdogMS = 2000 + 30000
 
 type result struct {
 	returned, dead, killed bool
 	ret                    int64
 	eof, term              int64 // -1 = not reported
+	noise                  int64 // worst probe lateness (ms) in parent and child during the case
 }
 
-func runCase(c Case, idx int) result {
+// parentNoise records when the harness' own 5 ms probe sleeps woke up late.
+var parentNoise struct {
+	sync.Mutex
+	events [][2]int64 // (monotonic ns at wake-up, lateness ms)
+}
+
+func noiseProbe() {
+	for {
+		t := mono()
+		time.Sleep(5 * time.Millisecond)
+		now := mono()
+		if late := (now - t - 5e6) / 1e6; late >= 20 {
+			parentNoise.Lock()
+			parentNoise.events = append(parentNoise.events, [2]int64{now, late})
+			parentNoise.Unlock()
+		}
+	}
+}
+
+func parentNoiseBetween(a, b int64) int64 {
+	parentNoise.Lock()
+	defer parentNoise.Unlock()
+	worst := int64(0)
+	for _, e := range parentNoise.events {
+		if e[0] >= a && e[0]-e[1]*1e6 <= b && e[1] > worst {
+			worst = e[1]
+		}
+	}
+	return worst
+}
+
+func runCase(c Case, idx int, barrier func()) result {
 	report := filepath.Join(reportDir, fmt.Sprintf("r%d", idx))
 	os.Remove(report)
 	defer os.Remove(report)
@@ -154,6 +198,10 @@ func runCase(c Case, idx int) result {
 		panic(fmt.Sprintf("fake agent did not start: %q %v", line, err))
 	}
 	stream.SetTerminationDelay(time.Duration(c.D) * time.Millisecond)
+	// Wait until every child of the batch has been exec'd: a child that is still
+	// between fork and exec holds copies of the other children's pipe ends, which
+	// would delay the end-of-input the agents are waiting for.
+	barrier()
 	done := make(chan int64, 1)
 	// all times are measured from this reading, taken just before Close is
 	// called and handed to the child as the origin of its own delays
@@ -185,6 +233,7 @@ func runCase(c Case, idx int) result {
 		r.ret = int64(c.D + watchdogMS)
 		r.dead = syscall.Kill(pid, 0) == syscall.ESRCH
 	}
+	tEnd := mono()
 	// clean up whatever is left (os.Process refuses once the child was reaped)
 	cmd.Process.Kill()
 	if !r.returned {
@@ -196,10 +245,17 @@ func runCase(c Case, idx int) result {
 	if b, err := os.ReadFile(report); err == nil {
 		for _, l := range strings.Split(string(b), "\n") {
 			f := strings.Fields(l)
-			if len(f) != 2 {
+			if len(f) < 2 {
 				continue
 			}
 			ns, _ := strconv.ParseInt(f[1], 10, 64)
+			if f[0] == "J" {
+				// a stall of the child's probe that ended after Close was called
+				if late, _ := strconv.ParseInt(f[len(f)-1], 10, 64); len(f) == 3 && ns >= t0 && late > r.noise {
+					r.noise = late
+				}
+				continue
+			}
 			ms := (ns - t0) / 1e6
 			if ms < 0 {
 				ms = 0
@@ -211,6 +267,10 @@ func runCase(c Case, idx int) result {
 				r.term = ms
 			}
 		}
+	}
+	time.Sleep(12 * time.Millisecond) // let the probe report a stall that covered the end
+	if pn := parentNoiseBetween(t0, tEnd+10e6); pn > r.noise {
+		r.noise = pn
 	}
 	return r
 }
@@ -230,9 +290,9 @@ func b(x bool) string {
 }
 
 func render(c Case, r result) (string, bool, []string) {
-	coq := fmt.Sprintf("(%d, Pr %s %s %s, Ob %s %s %d %s %s %s)", c.D,
+	coq := fmt.Sprintf("(%d, Pr %s %s %s, Ob %s %s %d %s %s %s %d)", c.D,
 		optN(int64(c.Self)), optN(int64(c.Stdin)), optN(int64(c.Term)),
-		b(r.returned), b(r.dead), r.ret, optN(r.eof), optN(r.term), b(r.killed))
+		b(r.returned), b(r.dead), r.ret, optN(r.eof), optN(r.term), b(r.killed), r.noise)
 	stage := "self"
 	switch {
 	case r.killed:
@@ -257,6 +317,9 @@ func render(c Case, r result) (string, bool, []string) {
 	}
 	if !r.returned {
 		tags = append(tags, "no-return")
+	}
+	if r.noise > 250 {
+		tags = append(tags, "noisy(stage-not-compared)")
 	}
 	return coq, stage != "self", tags
 }
@@ -331,16 +394,16 @@ func main() {
 			return r.Intn(max)
 		}
 		for i := 0; i < n; i++ {
-			c := Case{D: []int{0, 0, 20, 100, 300, 600}[r.Intn(6)]}
+			c := Case{D: []int{0, 0, 20, 100, 300, 600, 1500}[r.Intn(7)]}
 			switch r.Intn(6) {
 			case 0:
 				c.Self, c.Stdin, c.Term = -1, -1, -1
 			case 1:
 				c.Self, c.Stdin, c.Term = r.Intn(c.D+2800), -1, -1
 			case 2:
-				c.Self, c.Stdin, c.Term = -1, r.Intn(2500), -1
+				c.Self, c.Stdin, c.Term = -1, []int{r.Intn(60), r.Intn(2500)}[r.Intn(2)], -1
 			case 3:
-				c.Self, c.Stdin, c.Term = -1, -1, r.Intn(1600)
+				c.Self, c.Stdin, c.Term = -1, -1, []int{r.Intn(60), r.Intn(1600)}[r.Intn(2)]
 			default:
 				c.Self, c.Stdin, c.Term = delay(c.D+2800), delay(2500), delay(1600)
 			}
@@ -348,22 +411,33 @@ func main() {
 		}
 	}
 
+	go noiseProbe()
 	// The cases spend their time sleeping: run them concurrently.
 	results := make([]result, len(cases))
 	failed := make([]any, len(cases))
-	sem := make(chan struct{}, 24)
-	var wg sync.WaitGroup
-	for i := range cases {
-		wg.Add(1)
-		sem <- struct{}{}
-		go func(i int) {
-			defer wg.Done()
-			defer func() { <-sem }()
-			defer func() { failed[i] = recover() }()
-			results[i] = runCase(cases[i], i)
-		}(i)
+	const batch = 24
+	for lo := 0; lo < len(cases); lo += batch {
+		hi := min(lo+batch, len(cases))
+		var spawned, wg sync.WaitGroup
+		release := make(chan struct{})
+		spawned.Add(hi - lo)
+		for i := lo; i < hi; i++ {
+			wg.Add(1)
+			go func(i int) {
+				defer wg.Done()
+				var once sync.Once
+				arrive := func() { once.Do(spawned.Done) }
+				defer func() {
+					failed[i] = recover()
+					arrive()
+				}()
+				results[i] = runCase(cases[i], i, func() { arrive(); <-release })
+			}(i)
+		}
+		spawned.Wait()
+		close(release)
+		wg.Wait()
 	}
-	wg.Wait()
 	for i, c := range cases {
 		if failed[i] != nil {
 			// a panic of the code under test (or of the harness around it) is
@@ -375,6 +449,7 @@ func main() {
 		coq, nt, tags := render(c, results[i])
 		w.Add(hx.Case{Coq: coq, Replay: c, Nontrivial: nt, Tags: tags, Origin: origins[i]})
 	}
+	w.Extra["traces_validated_against_impl"] = w.Total()
 	w.Close()
 	fmt.Println("cases", w.Total())
 }
